@@ -5,7 +5,7 @@
 (* and captured variables, loop variables, counters and include arguments. *)
 EXTENDS LiquidInterp, Json
 
-CONSTANTS Names, MaxNodes, MaxDepth, EmitAll
+CONSTANTS Names, MaxNodes, MaxDepth, EmitAll, WideLeaves
 
 (* ---- statement alphabet ---- *)
 Txt(c)  == [t |-> "text", c |-> c]
@@ -29,11 +29,15 @@ First2 == CHOOSE pr \in Names \X Names : pr[1] # pr[2]   \* the pair used for th
 InclSame(n) == [t |-> "include", name |-> Lit(StrV("p")), args |-> <<[k |-> n, x |-> Lit(StrV("s"))]>>]
 \* an argument that passes a name on under the same name still binds it in the partial's frame
 InclVar(n, m) == [t |-> "include", name |-> Lit(StrV("p")), args |-> <<[k |-> n, x |-> V(m)]>>]
-Leaves ==
+\* the value-collision and same-name-argument leaves (WideLeaves) take part up to 3 nodes; the 4-node and 3-name tiers use the core
+CoreLeaves ==
   {Read(n) : n \in Names} \cup {Assign_(n, Lit(StrV("s"))) : n \in Names} \cup
   {Assign_(First2[1], V(First2[2]))} \cup
+  {Inc(n) : n \in Names} \cup {Dec(First2[1])} \cup {Incl(n) : n \in Names}
+Leaves ==
+  IF ~WideLeaves THEN CoreLeaves ELSE CoreLeaves \cup
   {Assign_(First2[1], Lit(IntV(7))), Assign_(First2[1], Lit(IntV(1))), Assign_(First2[2], Lit(StrV("d"))), Assign_(First2[1], Lit(StrV("i")))} \cup
-  {Inc(n) : n \in Names} \cup {Dec(First2[1])} \cup {Incl(n) : n \in Names} \cup {InclSame(First2[1])} \cup
+  {InclSame(First2[1])} \cup
   {InclVar(First2[1], First2[1]), InclVar(First2[2], First2[1])}
 
 Compound(body) ==
